@@ -148,6 +148,17 @@ PROPS["C16"] = {
     "units": [U("TestVerif_C16_KillCycles", "./pkg/db", R(12, shards=4, shrinktime="20s", timeout=600), R(150, shards=16, shrinktime="60s", timeout=1500))],
 }
 
+GD = "./cmd/guardiand"
+PROPS["C17"] = {
+    "rule": "op lists over request(chain in {1,2,4 known; 3, 65537, 65538, 131074 unknown}, tx from a pool of 3), advance(1 s..25 min, biased to the 11/18 min "
+            "bounds), drain(chain) against the real dispatcher goroutine under benbjohnson/clock.Mock with watcher queues of capacity 0..3; plus "
+            "PostObservationRequest on queues of every fill level; non-trivial = at least one suppressed duplicate and one re-forward after the window",
+    "assumptions": ["a request for an unknown chain is used as a barrier (returns when the dispatcher is back in select); clock advances are split into <= 6 min steps so no purge tick is coalesced",
+                    "a request between 11 and 18 minutes after the last forward may go either way", "a suspected miss after the window is re-executed with a 60-barrier settle before it counts"],
+    "units": [U("TestVerif_C17_Dispatcher", GD, R(400), R(6000, shards=16, timeout=1500)),
+              U("TestVerif_C17_Post", GD, R(2000), R(20000, shards=4, timeout=600))],
+}
+
 def setup():
     """MANIFEST.setup_cmd: create stubs and warm the build cache for every harness binary."""
     work = os.path.join(vdriver.WORKROOT, "setup-%d" % os.getpid())
